@@ -329,7 +329,7 @@ public:
     operator+=(OtherNumber value)
     {
         std::for_each(data_, data_ + (cols_ * rows_), [&value](Number& a) {
-            a += static_cast<int>(std::floor(value));
+            a = static_cast<Number>(a + value);
         });
         return *this;
     }
@@ -341,7 +341,7 @@ public:
     operator-=(OtherNumber value)
     {
         std::for_each(data_, data_ + (cols_ * rows_), [&value](Number& a) {
-            a -= static_cast<int>(std::floor(value));
+            a = static_cast<Number>(a - value);
         });
         return *this;
     }
@@ -353,7 +353,7 @@ public:
     operator*=(OtherNumber value)
     {
         std::for_each(data_, data_ + (cols_ * rows_), [&value](Number& a) {
-            a *= static_cast<int>(std::floor(value));
+            a = static_cast<Number>(a * value);
         });
         return *this;
     }
@@ -365,7 +365,7 @@ public:
     operator/=(OtherNumber value)
     {
         std::for_each(data_, data_ + (cols_ * rows_), [&value](Number& a) {
-            a /= static_cast<int>(std::floor(value));
+            a = static_cast<Number>(a / value);
         });
         return *this;
     }
